@@ -47,6 +47,14 @@ CHECKS = [
      "design_ref": "DESIGN.md 5/C15",
      "level_text": "Generated programs x script-hook invocation sequences; exactly-once and inertness checked on every invocation. Exploration.",
      "level_note": _PRINTER_NOTE + " Shape of the prefix judged by the C06 reference model."},
+    {"id": "C12", "technique": "stateful property-based testing (Hypothesis RuleBasedStateMachine) over API request histories with a geometric probe-point oracle (excluded before implies excluded after)",
+     "design_ref": "DESIGN.md 5/C12",
+     "level_text": "Model-free stateful search: request geometry is derived from the region being replaced (grown/shrunk/shifted/type-changed, touching and nearly touching) and membership of a fixed probe set is compared before and after each request. Exploration.",
+     "level_note": "Trusted: vlib/geom.py probe sets and signed distances; plugin harness stubs. A probe counts as lost only if it ends up outside every region by more than 1e-9 x coordinate scale."},
+    {"id": "C13", "technique": "stateful property-based testing (Hypothesis RuleBasedStateMachine) against an ordered-list reference model of the region registry; notifications and GET compared after every step",
+     "design_ref": "DESIGN.md 5/C13",
+     "level_text": "Model-based stateful search over API requests (valid, duplicate, unknown, malformed, anonymous) interleaved with events and settings changes. Exploration.",
+     "level_note": "Trusted: list model in props/c13.py; stub plugin manager recording send_plugin_message; flask test app context for on_api_get; current_user stub with callable is_anonymous()."},
     {"id": "C14", "technique": "property-based testing (Hypothesis): programs with @-commands, independent model of the action table, reference-printer differential and state-snapshot comparison",
      "design_ref": "DESIGN.md 5/C14",
      "level_text": "Generated-input search over programs x action tables with an enabled/disabled reference model; checks no suppression while disabled, re-synchronisation on a disable inside an episode, decisions after re-enabling against the true position, and inertness of unmatched / streaming @-commands. Exploration.",
